@@ -26,13 +26,21 @@ TEXTS = [
     # the same sections re-opened from another input (file names recorded per section are replaced, not leaked)
     b'p = x include ( "deep1.conf" ) p = never',
     b'sec { s = a p = s1 } include ( "inc3.conf" ) sec { s = b } t one { p = z } include ( "inc3.conf" ) sec { include ( "inc3.conf" ) }',
+    # the include depth is exhausted (a file that includes itself), at the top level and from inside a section
+    b'p = a include ( "self.conf" ) p = never',
+    b'sec { p = b include ( "selfsec.conf" ) } p = never',
+    # annotations pending in front of items that are skipped (CFGF_COMMENTS | CFGF_IGNORE_UNKNOWN)
+    b'/* c1 */ unk = 1 # c2\n unk2 { /* c3 */ x = 1 } /* c4 */ i = 2 # c5\n unk3 ( a ) /* c6 */ /* c7 */ unk4 += { 1 } # c8\n p = z /* c9 */ unk5 t { }',
 ]
+TEXT_FLAGS = {2: F['COMMENTS'], 7: F['COMMENTS'] | F['IGNORE_UNKNOWN']}
 TOKEN = re.compile(rb'"[^"]*"|/\*.*?\*/|#[^\n]*\n|\+=|[{}()=,]|[^\s{}()=,]+', re.S)
 FILES = ['file %s file %s' % (hx(b'inc.conf'), hx(b'p = inc1\npl += {inc2}\n')), 'file %s file %s' % (hx(b'inc2.conf'), hx(b'p = inc3\n')),
          'file %s file %s' % (hx(b'inc3.conf'), hx(b'sec { p = incsec in x { q = i3 } }\nt one { pl += {i4} }\n')),
          'file %s file %s' % (hx(b'deep1.conf'), hx(b'p = d1\ninclude("deep2.conf")\n')),
          'file %s file %s' % (hx(b'deep2.conf'), hx(b'pl += {d2}\ninclude("deep3.conf")\n')),
          'file %s file %s' % (hx(b'deep3.conf'), hx(b'p = d3\ni = = 1\n')),
+         'file %s file %s' % (hx(b'self.conf'), hx(b'pl += {s1}\ninclude("self.conf")\n')),
+         'file %s file %s' % (hx(b'selfsec.conf'), hx(b'p = s2\ninclude("selfsec.conf")\n')),
          'file %s dir' % hx(b'spdir'), 'file %s file %s' % (hx(b'spdir/only.conf'), hx(b'i = 1\n'))]
 
 
@@ -54,15 +62,15 @@ def generate(rng, tier):
         toks = TOKEN.findall(text)
         for sp in (False, True):
             n += 1
-            yield scenario('full%d' % n, b' '.join(toks), sp, F['COMMENTS'] if ti == 2 else 0, 'valid')
+            yield scenario('full%d' % n, b' '.join(toks), sp, TEXT_FLAGS.get(ti, 0), 'valid')
             for k in range(len(toks)):
                 if tier == 'quick' and (k + ti + sp) % 2:
                     continue
                 n += 1
-                yield scenario('cut%d' % n, b' '.join(toks[:k]), sp, 0, 'cut')
+                yield scenario('cut%d' % n, b' '.join(toks[:k]), sp, TEXT_FLAGS.get(ti, 0) if ti == 7 else 0, 'cut')
                 n += 1
                 bad = r.pick([b'}', b'{', b'=', b',', b')', b'(', b'"unterminated', b'bogus'])
-                yield scenario('bad%d' % n, b' '.join(toks[:k] + [bad] + toks[k + 1:]), sp, 0, 'corrupted')
+                yield scenario('bad%d' % n, b' '.join(toks[:k] + [bad] + toks[k + 1:]), sp, TEXT_FLAGS.get(ti, 0) if ti == 7 else 0, 'corrupted')
     api_calls = ['setopt 0 %s %s' % (hx(b'p'), hx(b'v1')), 'setopt 0 %s %s' % (hx(b'pl'), hx(b'v2')), 'setmulti 0 %s %s %s' % (hx(b'pl'), hx(b'a'), hx(b'b')),
                  'setmulti 0 %s %s' % (hx(b'p'), hx(b'c')), 'addtsec 0 %s %s' % (hx(b't'), hx(b'n1')), 'setopt 0 %s %s' % (hx(b't=n1|p'), hx(b'v3')),
                  'rmtsec 0 %s %s' % (hx(b't'), hx(b'n1')), 'rmsec 0 ' + hx(b'm=0'), 'rmnsec 0 %s 0' % hx(b'm'), 'rmsec 0 ' + hx(b'sec'),
@@ -72,6 +80,7 @@ def generate(rng, tier):
                  'parse_file 0 ' + hx(b'inc3.conf'), 'parse_buf 0 ' + hx(b'sec { in x { } }\nt one { }\n'), 'parse_buf 0 ' + hx(b'sec { in x {'),
                  'setstr_self 0 %s 1 0' % hx(b's'), 'setstr_self 0 %s 0 1' % hx(b'sl'), 'setstr_self 0 %s 2 0' % hx(b'sec|s'),
                  'failat 1', 'failat 2', 'failat 0', 'parse_buf 0 ' + hx(b'include("deep1.conf")\n'), 'parse_buf 0 ' + hx(b'sec { include("deep2.conf") }\n'),
+                 'parse_buf 0 ' + hx(b'include("self.conf")\n'), 'parse_file 0 ' + hx(b'selfsec.conf'),
                  'setint 0 %s 1 0' % hx(b'i'), 'setmulti 0 %s %s %s' % (hx(b'pl'), hx(b'ok'), hx(b'-'))]
     for _ in range(150 if tier == 'quick' else 4000):
         n += 1
